@@ -131,8 +131,8 @@ example : rule_5_8_2 wSchema (wBad "5.8.2") = false ∧ checkOp wSchema (wBad "5
 /-! ### fragment targets (the part of 5.5.1.2 / 5.5.1.3 about fragment DEFINITIONS) -/
 
 /-- 5.5.1.2 / 5.5.1.3 for fragment definitions: if the checker reports nothing, the type condition of every
-    fragment definition is an object, interface or union type of the schema. (The same rules for the type
-    conditions of inline fragments are in the OPEN block below.) -/
+    fragment definition is an object, interface or union type of the schema. (The same rules for ALL type
+    conditions, those of inline fragments included: `C03_rule_5_5_1_2`, `C03_rule_5_5_1_3` below.) -/
 theorem C03_fragment_definition_targets (S : Schema) (D : Doc) (h : checkOp S D = []) :
     ∀ f ∈ Valid.frags D, ∃ t, S.typeDef? f.cond = some t ∧
       (t.kind = .object ∨ t.kind = .interface ∨ t.kind = .union) := by
@@ -648,7 +648,8 @@ example : checkOp wSchema (wBad "5.7.2") ≠ [] := by decide +kernel
 
 /-! ### conjunction -/
 
-/-- the rules whose soundness theorem is proved in this file -/
+/-- the rules whose soundness theorem needs no hypothesis on the document (all implemented rules except 5.2.3.1,
+    which is proved under `Doc.NonEmptySelections` further below) -/
 def ProvedRules : List String :=
   ["5.2.1.1", "5.2.2.1", "5.5.1.1", "5.8.1", "5.8.2", "5.3.1", "5.3.3", "5.5.1.2", "5.5.1.3", "5.5.2.1", "5.5.2.2", "5.7.1", "5.7.2", "5.7.3", "5.4.2.1", "5.5.2.3", "5.4.1", "5.4.2", "5.6.1", "5.6.2", "5.6.3", "5.6.4", "5.8.3", "5.8.5"]
 
@@ -896,9 +897,13 @@ former separate predicate `rule_int32` (an open finding of the real checker unti
 
 Every implemented rule (25 of 25) is proved, the conjunction `C03_accepts_only_valid` included. What the theorems
 assume and K/O carry:
-* `Doc.NonEmptySelections D` in `C03_rule_5_2_3_1` / `C03_accepts_only_valid` — a property of the PARSER (grammar
-  `SelectionSet = "{" Selection+ "}"`), not of the checker; shown necessary by `C03_rule_5_2_3_1_needs_nonempty`.
-* the model = the Rust code (K), the reference validator = the specification (trusted transcription).
+* `Doc.NonEmptySelections D` in `C03_rule_5_2_3_1` / `C03_accepts_only_valid` / `C03_single_root_field` — a property of
+  the PARSER (grammar `SelectionSet = "{" Selection+ "}"`), not of the checker; NOT discharged by any theorem of this
+  property; shown necessary by `C03_rule_5_2_3_1_needs_nonempty`. The 24 other rules (`C03_accepts_only_valid_proved`)
+  and the "at most one" half (`C03_rule_5_2_3_1_at_most_one`) do not need it.
+* the model = the Rust code (K) — including `Model/IntLit.lean` = Rust's `str::parse::<i32>` and the bounded-rounds /
+  fuel-bounded rendering of the Rust loops; the reference validator = the specification (trusted transcription).
+* `#import` resolution and the `nitrogql check` command are not modelled (import stream and CLI leg of K/O).
 NOT implemented by the checker (known, recorded as a theorem in `Props/C03FieldMerge.lean`): 5.3.2 Field Selection
 Merging; also 5.2.3.1b, 5.5.1.4, 5.8.4 (`extraRuleTable`).
 -/
